@@ -732,6 +732,7 @@ class Generated:
     clauses: list               # dict(item, cid, kind, tags)
     rules: list
     template: str
+    includes: list = None
 
 
 _BLOCK = re.compile(r"/\*@@(.*?)@@\*/", re.S)
@@ -739,6 +740,7 @@ _BLOCK = re.compile(r"/\*@@(.*?)@@\*/", re.S)
 
 def generate(template_path, repo, canary=False, only_items=None):
     rules = []
+    includes = []
     items_meta = []
     clauses_meta = []
     chunks = []
@@ -773,6 +775,7 @@ def generate(template_path, repo, canary=False, only_items=None):
                 if inc.endswith(" trusted"):
                     inc = inc[:-len(" trusted")].strip()
                     ft = True
+                includes.append(inc + (" (assumed here, proved in its own unit)" if ft and inc.startswith("contracts/") else ""))
                 process(os.path.join(VERIF, inc), depth + 1, ft)
                 continue
             if head == "tables":
@@ -824,7 +827,7 @@ def generate(template_path, repo, canary=False, only_items=None):
                     line_origins[ln].append(origin)
             if i < len(parts) - 1:
                 ln += 1
-    return Generated(full, line_origins, items_meta, clauses_meta, rules, template_path)
+    return Generated(full, line_origins, items_meta, clauses_meta, rules, template_path, includes)
 
 
 def _canary(rendered, sp):
